@@ -250,6 +250,9 @@ pub fn build_node(e: &Epoch, hub: &Arc<Hub>, i: usize) -> SimNode {
 }
 
 pub fn runtime(seed: u64) -> tokio::runtime::Runtime {
+    // whole nodes run their timers for real (in virtual time); an exploration engine that ran on
+    // this worker thread before may have left the thread-local capture switch on
+    alpenglow::consensus::verif::verif_capture_timeouts(false);
     let mut s = [0u8; 32];
     s[..8].copy_from_slice(&seed.to_le_bytes());
     tokio::runtime::Builder::new_current_thread()
